@@ -138,6 +138,8 @@ def run(ck, tier):
     _infl.run(ck, F, 'C10')
     from . import mustpass as _mp
     _mp.run(ck, F, 'C10')
+    from . import accum as _acc2
+    _acc2.run2(ck, F, 'C10')
     from . import accum as _acc
     _acc.run(ck, F, 'C10')
     run_child_opts(ck, F)
